@@ -300,6 +300,8 @@ class Folder:
         if isinstance(e, ast.IfExp):
             return self.expr(e.body) if self.truth(self.expr(e.test), e.test) else self.expr(e.orelse)
         if isinstance(e, ast.Subscript):
+            if norm(e) in self.env:
+                return self.env[norm(e)]
             base = self.expr(e.value)
             if isinstance(e.slice, ast.Slice):
                 lo = self.expr(e.slice.lower) if e.slice.lower else None
